@@ -253,6 +253,54 @@ def _examples(placer, kind):
     return {"quick": 1500, "thorough": 10000}
 
 
+@st.composite
+def strat_scale(draw, tier):
+    """Problems of the size real applications have: machines of hundreds to
+    thousands of chips, or netlists of a few thousand vertices in long
+    chains - inside the completeness premise, for the placers that are cheap
+    enough to be run at that size."""
+    placer = draw(st.sampled_from(["hilbert", "rcm", "breadth-first",
+                                   "sequential", "rand"]))
+    if draw(st.booleans()):
+        w = draw(st.sampled_from([16, 24, 30, 32, 36, 40, 48, 64]))
+        h = draw(st.sampled_from([16, 24, 30, 32, 36, 40, 48]))
+        cores = draw(st.integers(1, 4))
+        n = draw(st.integers(3, 30))
+        kind = "large-machine"
+    else:
+        n = draw(st.sampled_from([500, 1000, 2000, 2500, 3000, 4000, 5000]))
+        n += draw(st.integers(0, 400))
+        cores = 18
+        side = 2
+        while side * side * cores < n + 20:
+            side += 1
+        w, h = side + draw(st.integers(0, 2)), side
+        kind = "long-chain"
+    names = ["v%d" % i for i in range(n)]
+    if kind == "long-chain":
+        nets = [{"source": names[i], "sinks": [names[i + 1]], "weight": 1}
+                for i in range(n - 1)]
+    else:
+        nets = draw(gp.nets_strategy(names, max_nets=8, max_fan=4,
+                                     min_nets=1))
+    m = {"w": w, "h": h, "mesh": draw(st.booleans()),
+         "resources": {"Cores": cores}, "exceptions": [], "dead_chips": [],
+         "dead_links": []}
+    return {"machine": m, "placer": placer, "kind": kind,
+            "vertices": [{"name": v, "needs": {"Cores": 1}} for v in names],
+            "nets": nets, "constraints": [], "vkind": "str",
+            "seed": draw(st.integers(0, 1000)),
+            "options": {"chip_order": None, "vertex_order": None,
+                        "breadth_first": None}}
+
+
+def check_scale(case):
+    out = check_complete(case)
+    out["classes"] = [case["placer"], case["kind"]]
+    out["nontrivial"] = True
+    return out
+
+
 CLAUSES = []
 for _p in PLACERS:
     CLAUSES.append(Clause(
@@ -274,3 +322,12 @@ for _p in PLACERS:
              "total need >= half the free capacity",
         examples=_examples(_p, "complete"),
         shards={"quick": 2, "thorough": 16}))
+CLAUSES.append(Clause(
+    "scale", check_scale, strategy=strat_scale,
+    rule="machines of 16-48 chips on a side with a few vertices, or chains "
+         "of 400-3000 one-core vertices on a machine that just holds them, "
+         "for the hilbert, rcm, breadth-first, sequential and random "
+         "placers: the placer must succeed with a feasible placement; every "
+         "case counts as non-trivial",
+    examples={"quick": 60, "thorough": 600},
+    shards={"quick": 4, "thorough": 16}))
